@@ -379,6 +379,7 @@ async fn main() {
     std::panic::set_hook(Box::new(|info| {
         PANICS.fetch_add(1, Ordering::SeqCst);
         *LAST_PANIC.lock().unwrap() = info.to_string().replace('\n', " ").chars().take(200).collect();
+        if info.location().map(|l| l.file().contains("/verif/harness") || l.file().starts_with("src/")).unwrap_or(false) { eprintln!("harness panic: {}", info); }
     }));
     let _ = std::fs::remove_dir_all(WORK.to_string() + "/inst_tmp");
     std::fs::create_dir_all(WORK).unwrap();
@@ -386,6 +387,9 @@ async fn main() {
     let mut rng = Rng::from_env();
     let mut out = Out::create();
     let mut stats = serde_json::Map::new();
+
+    // ---- corpus: witnesses of the listed classes and inputs kept from earlier failures
+    replay_corpus(&mut out).await;
 
     // ---- mutations: directed, then random
     let es = mut_entities();
@@ -422,11 +426,11 @@ async fn main() {
         (Mutation { ent: ent_idx("PBase64Nullable"), vals: vec![(FRef::Field(0), MV::Var(1))], params: vec![(1, PV::Bin("AAAA".into()))] }, "Binary value for a Base64 field"),
     ];
     let n_dir = directed.len();
-    let n_rand = scale(700, 7000);
+    let n_rand = scale(500, 7000);
     let mut verdicts = [0usize; 4];
     let mut fresh_instances = 1usize;
     for i in 0..(n_dir + n_rand) {
-        let allow_k1 = rng.chance(1, 25);
+        let allow_k1 = rng.chance(1, 6);
         let (m, what) = if i < n_dir { let d = directed.remove(0); (d.0, d.1.to_string()) } else { (gen_mutation(&mut rng, &es, &ctx, allow_k1), "random".to_string()) };
         if !inst.healthy {
             inst.close();
@@ -472,7 +476,7 @@ async fn main() {
         let o = sync_call(|| import_verifying_key(&k));
         out.push(Case { kind: "key".into(), coq: format!("CKey {} {}", key_coq(&k), gb(point_ok(&k))), obs: vec![o], meta: json!({"len": k.len()}) });
     }
-    let n_rows = scale(250, 2500);
+    let n_rows = scale(200, 2500);
     let mut row_verdicts = [0usize; 3];
     for i in 0..n_rows {
         let (r, t) = gen_row(&mut rng, &sk, i < 4);
@@ -504,5 +508,10 @@ async fn main() {
     out.push(Case { kind: "stats".into(), coq: "CObs 0%N".into(), obs: vec![0, 1], meta: serde_json::Value::Object(stats) });
     out.finish();
     for e in std::fs::read_dir(WORK).unwrap().flatten() { if e.file_name().to_string_lossy().starts_with("inst_") { let _ = std::fs::remove_dir_all(e.path()); } }
-    std::process::exit(0);
+    // leave without running exit handlers: reader / verifier threads of closed instances may still
+    // be inside the engine and race with its global cleanup
+    use std::io::Write;
+    let _ = std::io::stderr().flush();
+    extern "C" { fn _exit(code: i32) -> !; }
+    unsafe { _exit(0) }
 }
